@@ -143,13 +143,13 @@ PROPS = {
     },
     "C11": {
         "level": "fault_enumeration",
-        "cases": {"quick": 1600, "thorough": 30000},
+        "cases": {"quick": 6000, "thorough": 120000},
         "rule": "cases = generated (retention configuration, publication history) pairs on disk storage: accepted deltas of several publishers, RRDP updates, clock advances (so truncation by number, age and size trigger), "
         "session resets, publisher removal/re-creation, restarts, repository re-writes, and RRDP updates whose sequence of file-system mutations (delta and snapshot files, notification temp file, notification rename, "
         "rsync temp dir, the two rsync renames, clean-up removals/archiving) is cut at a generated point k in 1..15, either as a single failing write or as a crash (point k and all later points fail); "
         "a simulated client remembers the object map of every serial it has ever seen; distinct by hash of the case JSON; non-trivial iff at least six serials were observed with at least one truncation, "
         "or a write was interrupted and followed by at least two more writes",
-        "floors": {"__nontrivial__": 0.30, "write_interrupted": 0.50, "deltas_truncated": 0.20, "session_reset": 0.20},
+        "floors": {"__nontrivial__": 0.12, "write_interrupted": 0.50, "deltas_truncated": 0.12, "session_reset": 0.20},
         "assumptions": ["retention settings are generated with 1 <= min_nr <= max_nr and min_seconds <= max_seconds (krill does not validate them; other combinations are configuration nonsense)", "retention bound as documented in config.rs: the first min_nr deltas and every delta younger than min_seconds are always kept; max_nr and max_seconds apply to the rest", "cut points are sampled per write (k generated), not enumerated exhaustively, in both tiers"],
         "technique": "model-based property testing with fault injection at generated cut points (hook H5): a simulated RRDP client with memory of every serial applies the offered delta chains strictly and compares with the snapshot and the reference model; rsync tree compared with the snapshot; after an interrupted write the old notification must stay consistent and later writes must succeed",
         "level_text": "Generated histories plus sampled cut points over the file-system mutation sequence of an update. For every observation: notification/snapshot/delta hashes, snapshot = publication state, every remembered serial reaches the snapshot through the offered chain, serial +1 per update, session only changes by reset, retention bounds, rsync = snapshot, recovery after interruption. Not exhaustive over cut points.",
